@@ -375,13 +375,18 @@ Definition st_pack (n' m' : nat) (tg sl : N) (trs : list tract) : st :=
   {| s_n := n'; s_m := m'; s_M := class_matrix n' m'; s_target := tg; s_tracts := trs; s_chunks := chs;
      s_acc := map pc_leader (accepted chs tg sl); s_stripes := []; s_hosts := []; s_blobs := []; s_codec := [] |}.
 
-(* op 11: packChunks groups the accepted chunks, in the order [ls] of their leaders, into stripes of n *)
+(* op 11: packChunks groups the accepted chunks, in the order [ls] of their leaders, into stripes of n; a stripe
+   exists (is packed, encoded and committed) only if the tractservers' PackTracts accept all its layouts, i.e.
+   store.go checkTractSpec holds of every chunk (doEncode abandons the stripe otherwise).  packTracts itself does
+   NOT check that a tract fits the piece: a tract longer than the target gets a chunk of its own, which is
+   "accepted" by the slop rule, and is only refused here. *)
 Definition st_stripes (s : st) (ls : list nat) : st :=
   let exts := map (fun l => match find_chunk s l with Some c => pc_exts c | None => [] end) ls in
   let k := (length ls / s_n s)%nat in
+  let stripes := filter (forallb (fun c => check_tract_spec c (s_target s))) (firstn k (chunks_of k (s_n s) exts)) in
   {| s_n := s_n s; s_m := s_m s; s_M := s_M s; s_target := s_target s; s_tracts := s_tracts s;
-     s_chunks := s_chunks s; s_acc := s_acc s; s_stripes := firstn k (chunks_of k (s_n s) exts);
-     s_hosts := repeat [] k; s_blobs := s_blobs s; s_codec := [] |}.
+     s_chunks := s_chunks s; s_acc := s_acc s; s_stripes := stripes;
+     s_hosts := repeat [] (length stripes); s_blobs := s_blobs s; s_codec := [] |}.
 
 (* op 15: the hosts of stripe k as committed *)
 Definition st_set_hosts (s : st) (k : nat) (hosts : list N) : st :=
@@ -529,9 +534,7 @@ Definition step (s : st) (op : list Z) : st * list Z :=
               let badids := map (fun p => nth (Z.to_nat p) hosts 0) badp in
               match reconstruct_plan (s_n s) (s_m s) hosts badids (map zN newids) with
               | Some p =>
-                  ({| s_n := s_n s; s_m := s_m s; s_M := s_M s; s_target := s_target s; s_tracts := s_tracts s;
-                      s_chunks := s_chunks s; s_acc := s_acc s; s_stripes := s_stripes s;
-                      s_hosts := set_nth (Z.to_nat k) (p_hosts p) (s_hosts s); s_blobs := s_blobs s; s_codec := [] |},
+                  (st_set_hosts s (Z.to_nat k) (p_hosts p),
                    0%Z :: nz (length (p_src p)) :: map nz (p_src p) ++ p_map p ++ map Nz (p_dests p) ++ map Nz (p_hosts p))
               | None => (s, [2%Z])
               end
